@@ -522,7 +522,11 @@ impl Ctx {
                             let ts = |s: &str| syn::parse_file(s).map(|f| quote::ToTokens::to_token_stream(&f).to_string());
                             match (ts(&text), ts(reference)) {
                                 (Ok(a), Ok(b)) if a == b => {}
-                                (Ok(_), Ok(_)) => fail(&mut self.rep, "output-differs", "the formatted file is not token-equal to header + the library's tokens"),
+                                (Ok(a), Ok(b)) => {
+                                    let i = a.chars().zip(b.chars()).position(|(x, y)| x != y).unwrap_or(a.len().min(b.len()));
+                                    let ctx = |s: &str| s.chars().skip(i.saturating_sub(60)).take(140).collect::<String>();
+                                    fail(&mut self.rep, "output-differs", &format!("the formatted file is not token-equal to header + the library's tokens; file: …{}… / library: …{}…", ctx(&a), ctx(&b)))
+                                }
                                 (a, b) => fail(&mut self.rep, "output-differs", &format!("cannot parse: file {:?} / reference {:?}", a.err().map(|e| e.to_string()), b.err().map(|e| e.to_string()))),
                             }
                         }
